@@ -499,6 +499,10 @@ def bounded(tier, seed):
 def replay(rec):
     m = rec.get("model") or {}
     target = str(rec.get("target", ""))
+    if "_predict_moving_cutoff" in target:
+        # contract shared with C10 (cutoff restored after update_predict): its oracle drives update_predict sequences
+        from contracts.native import C10 as _c10
+        return _c10.replay(rec)
     R = Recorder("replay")
     nf = max(mint(m, "len(fh)", 0), 0)
     steps = tuple(h for h in ints_from_model(m, "fh", nf) if h >= 1) if nf else ()
